@@ -51,6 +51,10 @@ pub struct ScaleCase {
     /// (`adopt_unchecked(&x, &x)`, a loopback record)
     #[serde(default)]
     pub loopbacks: bool,
+    /// sink logger level (see `exec::set_log_level_sel`; 0 = no logger): the
+    /// library's log arguments are evaluated when the level admits them
+    #[serde(default)]
+    pub log: u8,
 }
 
 fn max_n(tier: Tier, shape: u8) -> f64 {
@@ -223,6 +227,7 @@ pub fn scaleprobe_cmd(args: &[String]) -> i32 {
     let c: ScaleCase = serde_json::from_str(&std::fs::read_to_string(&args[0]).unwrap()).unwrap();
     let n: usize = args[1].parse().unwrap();
     let do_drop = args[2] == "1";
+    exec::set_log_level_sel(c.log);
     let (h0, pairs, adoptions) = unsafe { build(&c, n) };
     if do_drop {
         DESTROYED.store(0, Ordering::Relaxed);
@@ -354,8 +359,8 @@ pub const L_HUGE: u32 = 5;
 impl Kind for ScaleKind {
     type Case = ScaleCase;
     fn strategy(_id: &str, _tier: Tier, _variant: u64) -> BoxedStrategy<ScaleCase> {
-        (0u8..7, any::<u16>(), vec((any::<u32>(), any::<u32>()), 0..48), vec(any::<u32>(), 0..16), any::<bool>(), 0u8..4)
-            .prop_map(|(shape, size, chords, selfs, parallel, lb)| ScaleCase { shape, size, chords, selfs, parallel, probe: None, loopbacks: lb == 0 })
+        (0u8..7, any::<u16>(), vec((any::<u32>(), any::<u32>()), 0..48), vec(any::<u32>(), 0..16), any::<bool>(), 0u8..4, 0u8..16)
+            .prop_map(|(shape, size, chords, selfs, parallel, lb, lg)| ScaleCase { shape, size, chords, selfs, parallel, probe: None, loopbacks: lb == 0, log: if lg < 8 { lg } else { 0 } })
             .boxed()
     }
     fn run(_id: &str, tier: Tier, c: &ScaleCase) -> CaseResult {
@@ -368,6 +373,7 @@ impl Kind for ScaleKind {
             let sh = exec::shared();
             // plain counting allocator: no guard pages for large N
             arena::st().count_only = true;
+            exec::set_log_level_sel(c.log);
             let (h0, pairs, adoptions) = unsafe { build(c, n) };
             sh.counters[20] = n as u64;
             sh.counters[21] = pairs as u64;
